@@ -301,6 +301,13 @@ def run(ctx):
         cs = [c for c in hcalls if dotted(c.func) == f"self.{hname}"]
         okd = bool(cs) and all(sem.holds(sem.facts(ufl, c), f"self._state is VBSState.{stname}") for c in cs)
         ctx.ob("C18.timers", up.short(), f"dispatch:{hname}", okd, f"{hname} runs exactly for state {stname}", up.loc)
+        # ... and on EVERY call of update() made in that state: nothing but the state tests stands between the entry of
+        # update() and the handler (a pacing / early-return condition starves every timer the handler drives)
+        extra = sorted({a_ for c in cs for a_ in sem.facts(ufl, c) if "self._state" not in a_})
+        ctx.ob("C18.timers", up.short(), f"dispatch-unconditional:{hname}", bool(cs) and not extra,
+               f"every update() in state {stname} reaches {hname}" if cs and not extra else
+               f"{hname} is reached only under {extra[:3]}: calls of update() that fail this test evaluate no clustering timer "
+               "(join notification, leader-lost, leave / break-up periods never end)", up.loc)
     # dispatch: via the typestate machine - update() from a passive state can reach stand-alone
     up_tr = [(a, b) for name, a, b, kind, val in M.transitions if name == "update"]
     p2a = any(dict(a)["_state"] == PASSIVE and dict(b)["_state"] == ALONE for a, b in up_tr)
